@@ -57,6 +57,9 @@ fn d2_of<T: Sc>(cfg: &Cfg) -> f64 {
     }
 }
 
+/// row-major 5 x 3
+const DENSE: [f64; 15] = [1.0, 0.5, 0.25, 1.0, -0.5, 0.25, 1.0, 1.0, 1.0, 1.0, -1.0, 1.0, 1.0, 0.0, 0.0];
+
 fn model<T: Sc>(cfg: &Cfg) -> BM<T> {
     let n = cfg.out_len;
     let spec = match n {
@@ -64,6 +67,8 @@ fn model<T: Sc>(cfg: &Cfg) -> BM<T> {
             let d2 = d2_of::<T>(cfg);
             PolySpec { n: 3, m: 2, p: 1, a0: vec![0.0; 6], a: vec![vec![1.0, 0.0, 0.0, d2, 0.0, 0.0]], b: vec![vec![0.0; 6]] }
         }
+        // dense, well conditioned 5 x 3 basis (three columns: the decomposition really iterates)
+        5 => PolySpec { n: 5, m: 3, p: 1, a0: vec![0.0; 15], a: vec![DENSE.to_vec()], b: vec![vec![0.0; 15]] },
         _ => PolySpec { n, m: 1, p: 1, a0: vec![0.0; n], a: vec![vec![1.0; n]], b: vec![vec![0.0; n]] },
     };
     let fam = Family::PolyMat(Arc::new(spec));
@@ -218,6 +223,34 @@ fn check_sequence<T: Sc>(ctx: &Ctx, cfg: &Cfg, seq: &[Call], tally: &mut (u64, u
                     Err(e) => ctx.with(|s| s.violate("C18", "call-order-matters", case(), format!("canonical order is rejected with {}", e))),
                 }
             }
+            // the exposed coefficients and residuals are the least-squares solution for the model's parameters (dense basis)
+            if cfg.out_len == 5 {
+                let (lr, lc) = last_obs.unwrap();
+                let y: DMatrix<f64> = ymat::<T>(cfg, lr, if cfg.mrhs { lc } else { 1 }).map(|v| v.d());
+                let wv: Vec<f64> = match last_w {
+                    Some((l, k)) => wvec::<T>(l, k).iter().map(|v| v.d()).collect(),
+                    None => vec![1.0; 5],
+                };
+                let phi_w = DMatrix::<f64>::from_fn(5, 3, |i, j| wv[i] * DENSE[i * 3 + j]);
+                let y_w = DMatrix::<f64>::from_fn(5, y.ncols(), |i, s| wv[i] * y[(i, s)]);
+                let rs = vpmc::refla::svd_jacobi(&phi_w);
+                let thr = last_e.map(|e| T::f(e).d().abs()).unwrap_or(T::EPS);
+                let smin = rs.s.iter().cloned().fold(f64::INFINITY, f64::min);
+                if smin >= 2.0 * thr {
+                    let c_ref = rs.solve(&y_w, 0.0);
+                    let r_ref = &y_w - &phi_w * &c_ref;
+                    let c = o.coef_f64().unwrap();
+                    let scale = c_ref.iter().fold(0.0f64, |a, b| a.max(b.abs())).max(1.0);
+                    let tol = 256.0 * T::EPS * scale;
+                    let dc = (0..c_ref.len()).map(|i| (c.as_slice()[i] - c_ref.as_slice()[i]).abs()).fold(0.0f64, f64::max);
+                    let res: Vec<f64> = o.res.as_ref().unwrap().iter().map(|b| T::from_bits64(*b).d()).collect();
+                    let dr = (0..r_ref.len()).map(|i| (res[i] - r_ref.as_slice()[i]).abs()).fold(0.0f64, f64::max);
+                    if c.nrows() != 3 || c.ncols() != c_ref.ncols() || !(dc <= tol) || res.len() != r_ref.len() || !(dr <= 4.0 * tol) {
+                        ctx.with(|s| s.violate("C18", "initial-state-not-least-squares", case(), format!("coefficients deviate by {:e}, residuals by {:e} from the weighted least-squares solution (tolerance {:e}; smallest singular value {:e}, threshold {:e})", dc, dr, tol, smin, thr)));
+                    }
+                    ctx.with(|s| s.inc("dense_initial_state_checked"));
+                }
+            }
             // threshold semantics on the crafted diagonal basis (out_len = 3): c2 = 3 (kept) or 0 (truncated)
             if cfg.out_len == 3 {
                 let d2 = d2_of::<T>(cfg);
@@ -260,14 +293,15 @@ fn check_sequence<T: Sc>(ctx: &Ctx, cfg: &Cfg, seq: &[Call], tally: &mut (u64, u
 fn alphabet(cfg: &Cfg, thorough: bool) -> Vec<Call> {
     let mut v = vec![];
     let big = cfg.out_len >= 100;
-    let rows: Vec<usize> = if big { vec![cfg.out_len, cfg.out_len - 1, 0, 256] } else { vec![3, 1, 0, 2, 4] };
+    let dense = cfg.out_len == 5;
+    let rows: Vec<usize> = if big { vec![cfg.out_len, cfg.out_len - 1, 0, 256] } else if dense { vec![5, 4, 0, 6] } else { vec![3, 1, 0, 2, 4] };
     let cols: Vec<usize> = if cfg.mrhs { if big { vec![1, 40] } else { vec![1, 2, 0, 3] } } else { vec![1] };
     for &r in &rows {
         for &c in &cols {
             v.push(Call::Obs { rows: r, cols: c });
         }
     }
-    let wlens: Vec<usize> = if big { vec![cfg.out_len, cfg.out_len - 1, 0, cfg.out_len * 40] } else { vec![3, 0, 2, 4, 1] };
+    let wlens: Vec<usize> = if big { vec![cfg.out_len, cfg.out_len - 1, 0, cfg.out_len * 40] } else if dense { vec![5, 4, 6] } else { vec![3, 0, 2, 4, 1] };
     for len in wlens {
         for kind in [1u8, 0] {
             if len == 0 && kind == 0 {
@@ -278,6 +312,11 @@ fn alphabet(cfg: &Cfg, thorough: bool) -> Vec<Call> {
     }
     for e in [1e-2, -1e-2, 1e-8, -1e-8, 0.0] {
         v.push(Call::Eps(e));
+    }
+    if dense {
+        // large thresholds that still lie below every singular value of the dense basis
+        v.push(Call::Eps(0.05));
+        v.push(Call::Eps(-0.125));
     }
     if thorough {
         v.push(Call::Eps(1e-300));
@@ -306,7 +345,7 @@ fn main() {
         let mut tally = (0u64, 0u64, 0u64);
         for mrhs in [false, true] {
             for par in [false, true] {
-                for out_len in [3usize, 1, 0, 300] {
+                for out_len in [3usize, 1, 0, 300, 5] {
                     for tiny_d2 in [false, true] {
                         if tiny_d2 && out_len != 3 {
                             continue;
